@@ -168,6 +168,15 @@ func genHeavy(t *rapid.T) Case {
 	return c
 }
 
+// genRestart: instances large enough for the restart policy to fire (n >= 100 at the threshold).
+func genRestart(t *rapid.T) Case {
+	var c Case
+	c.N, c.Clauses = gen.FormulaThreshold(t, 100, 150)
+	config(t, &c)
+	c.Family = "restart-prone"
+	return c
+}
+
 func init() {
 	tail := "; solved with certificate generation on (channel buffered or consumed concurrently) x learned-clause limit {default, n+1, n+8} and again with it off; Unsat: each line RUP w.r.t. formula + earlier lines and the empty clause RUP-derivable at the end, by an independent checker on literal sets; Sat: each line a consequence (truth table n<=20, else RUP or DPLL entailment), same verdict and valid models with certification on and off; non-trivial = Unsat, not decided at parse time, >=1 non-empty certificate line"
 	vf.Register(
@@ -179,6 +188,9 @@ func init() {
 		vf.Sub[Case]{Name: "threshold-3sat", Quick: 300, Thorough: 3000, Gen: genHeavy, Check: check, Floor: 0.25,
 			Classes: map[string]float64{"cert-lines>=20": 0.4},
 			Rule:    "uniform 3-SAT n in 30..100 (thorough ..150), ratio 4.0..4.6" + tail},
+		vf.Sub[Case]{Name: "restart-prone-3sat", Quick: 120, Thorough: 1200, Gen: genRestart, Check: check, Floor: 0.25,
+			Classes: map[string]float64{"restart>0": 0.12},
+			Rule:    "uniform 3-SAT n in 100..150, ratio 4.0..4.6: hundreds to thousands of conflicts, so that restarts (and clause-database reductions with the lowered limit) happen before the answer" + tail},
 	)
 }
 
